@@ -136,7 +136,7 @@ CLAIMED = {
             "(mandolineHeader_eq_utilsHeader, without which taste rejects the slice) and threshold; every cell of every written box is compared "
             "with the Python specification and the Lean column model, the listed boxes with the footprints the plane meets, outputs are tasted "
             "with box coordinates, incl. a slice above the one-megabyte threshold.",
-            "Header rendering of the 2D plotfile is checked by the oracle on the real output; floats at rtol 1e-9."),
+            "The 2D Header is the executable writer model Header.slice2D applied to the reader model's parse of the 3D input header (C16.slice_header_content: two dimensions, the input's time, in-plane bounds / cell sizes / grid sizes, per level the in-plane bounds of the selected boxes; slice_header_read_back), compared byte for byte with every written Header; Python's str(float) is a parameter of that model; interpolated values at rtol 1e-9."),
     "C12": ("Lean 4 theorems on interleavings of tasks with disjoint path sets + exhaustive order exploration with a controlled pool",
             "Proof: C12.any_interleaving / interleavings_agree (Sched.mergeAll_run), task_outputs_distinct (per-file output paths are injective in the basename), "
             "unordered_results (any arrival order of disjoint writes), unordered_delivery_only_in_whip (regenerated from the sources); Sched.merge_run and Sched.mergeAll_run (any interleaving of any number of tasks touching pairwise disjoint paths ends in the "
